@@ -22,6 +22,20 @@ fn main() {
             let code = vh::checks::run(&prop, &tier, out.as_deref());
             std::process::exit(code);
         }
+        "child" => {
+            // isolated sub-steps of a check (a crash of the subject must not take the engine down)
+            if args[2] == "c08meta" {
+                let thorough = args.get(3).map(|s| s == "thorough").unwrap_or(false);
+                let col = std::sync::Mutex::new(vh::report::Collector::default());
+                let n = vh::dom::c08_meta(thorough, true, &col);
+                for ((_, clause), f) in &col.into_inner().unwrap().found {
+                    println!("VIOL\t{clause}\t{}", f.v.detail.replace('\n', " "));
+                }
+                println!("DONE {n}");
+                std::process::exit(0);
+            }
+            std::process::exit(2);
+        }
         "replay" => {
             let code = vh::checks::replay(&args[2]);
             std::process::exit(code);
